@@ -206,6 +206,9 @@ pub struct World {
     pub prev_effective: BTreeSet<EvRef>,
     /// crash injection: (step id, tick index) at which the acting node's process dies
     pub arm_crash: Option<(u32, u64)>,
+    /// process death at tick k of the first step of one of these kinds (run::op_short) that
+    /// runs on SQLite and has that many ticks; disarmed once it fired
+    pub arm_crash_op: Option<(Vec<&'static str>, u64)>,
     /// run every step on a fresh thread (seam::step_isolated): needed wherever two runs that
     /// differ in an earlier step are compared (C11 twin, C12 crash runs)
     pub isolate_steps: bool,
@@ -316,6 +319,7 @@ impl World {
             prev_view: NodeView::default(),
             prev_effective: BTreeSet::new(),
             arm_crash: None,
+            arm_crash_op: None,
             arm_baseline: None,
             isolate_steps: false,
             txn_baseline_view: None,
@@ -618,10 +622,17 @@ impl World {
         let tick_state = std::rc::Rc::new(std::cell::RefCell::new((0u64, None::<String>)));
         let tick_labels = std::rc::Rc::new(std::cell::RefCell::new(Vec::<String>::new()));
         let want_labels = self.count_ticks;
-        let armed_k = match self.arm_crash {
+        let mut armed_k = match self.arm_crash {
             Some((sid, k)) if sid == step.id => Some(k),
             _ => None,
         };
+        if armed_k.is_none() && self.nodes[node].cfg.backend.is_sqlite() {
+            if let Some((kinds, k)) = &self.arm_crash_op {
+                if kinds.contains(&crate::run::op_short(&step.op)) {
+                    armed_k = Some(*k);
+                }
+            }
+        }
         let base_k = match self.arm_baseline {
             Some((sid, j)) if sid == step.id && armed_k.is_some() => Some(j),
             _ => None,
@@ -710,6 +721,7 @@ impl World {
                     let label = crash_label.clone().unwrap_or_default();
                     crashed = Some((armed_k.unwrap_or(0), label.clone()));
                     self.fault("crash");
+                    self.arm_crash_op = None;
                     // the process is gone: drop the MDK (closes the abandoned connection), put the
                     // image taken at the tick in place of the directory, start a new process
                     self.nodes[node].mdk = None;
